@@ -110,9 +110,10 @@ Definition detach_others (k : kind) (unscoped : bool) (os : list Z) (vs : list (
          the foreign-key FIELD VALUES captured before saveAssociation; the harness's foreign key is a
          pointer field (pointer to int64), SaveBeforeAssociations writes the new key THROUGH that pointer, so
          after a Replace with values the captured entries read the NEW targets (of the owners that
-         had a target before; first owner per old target value).  After Clear the field is replaced
-         by a nil pointer and the captured entries still read the old targets. *)
-      let victims := if clearing then []      (* the DELETE fails, see step_err *)
+         had a target before; first owner per old target value) - still a known finding.  After Clear
+         the field is replaced by a nil pointer, the captured entries still read the old targets, and
+         (since fix 75c7076: UpdateColumns runs on its own session) the DELETE removes them. *)
+      let victims := if clearing then List.concat oldmem
                      else captured_new oldmem (mem s) [] in
       let t := if unscoped then delete_where (fun x => memz x victims) (tgt s) else tgt s in
       mk_st r (joins s) t (mem s)
@@ -146,8 +147,9 @@ Definition do_delete (k : kind) (unscoped : bool) (os : list Z) (ts : list Z) (s
   match k with
   | KBelongs =>
       let r := null_where (fun p => memz (fst p) os && in_os ts (snd p)) (rows s) in
-      (* Unscoped: delete the targets named by the owners' in-memory foreign keys *)
-      let t := if unscoped then delete_where (fun x => memz x (List.concat (mem s))) (tgt s) else tgt s in
+      (* Unscoped: delete the targets named by the owners' in-memory foreign keys AND by the
+         arguments (since fix d23ce2a) *)
+      let t := if unscoped then delete_where (fun x => memz x (List.concat (mem s)) && memz x ts) (tgt s) else tgt s in
       mk_st r (joins s) t m'
   | KHasOne | KHasMany =>
       let P := fun p : Z * option Z => in_os os (snd p) && memz (fst p) ts in
@@ -192,15 +194,9 @@ Definition count_ids (k : kind) (os : list Z) (s : st) : Z := Z.of_nat (length (
 Definition all_targets (k : kind) (s : st) : list Z :=
   match k with KHasOne | KHasMany => map fst (rows s) | _ => tgt s end.
 
-(* errors the code returns although nothing is wrong with the call:
-   belongs to + Unscoped + Clear: after `association.DB.UpdateColumns(...)` the same *DB is reused for
-   `Model(nil).Where(tgts.id IN ...).Delete(&Target{})`, whose statement still targets the owners'
-   table: "no such column: tgts.id"; nothing is deleted.  Only when some owner had a target. *)
-Definition step_err (k : kind) (s : st) (uo : bool * op) : bool :=
-  match k, uo with
-  | KBelongs, (true, OClear) => negb (match List.concat (mem s) with [] => true | _ => false end)
-  | _, _ => false
-  end.
+(* errors the code returns although nothing is wrong with the call: none on the current tree
+   (before fix 75c7076 belongs to + Unscoped + Clear failed with "no such column: tgts.id"). *)
+Definition step_err (k : kind) (s : st) (uo : bool * op) : bool := false.
 
 (* states after each operation of a history *)
 Fixpoint run (k : kind) (os : list Z) (s : st) (ops : list (bool * op)) : list (st * bool) :=
